@@ -357,3 +357,25 @@ PROPS["C09"]["functions"] += ["passkey_client::extensions::prf::{make_salt, conv
 PROPS["C09"]["stubs"] += ["passkey_types::crypto::sha256 -> tagged function (length + first 31 message bytes) in the client harnesses"]
 PROPS["C09"]["outside"] = ["evalByCredential on both sides (std HashMap, F4)", "the identity of HMAC-SHA-256 / SHA-256 themselves", "PRF inputs longer than 8 bytes (hashed) - the hash input is built by an iterator chain whose length is concrete per instance",
                            "request validation that involves evalByCredential maps"]
+
+prop("C01",
+     title="RP ID is bound to the origin at a label boundary and is a registrable domain",
+     harnesses=[
+         H("c01_web_free_4_3", CL, features=("android-asset-validation",), bounds="web origin: host <= 4 bytes (non-empty labels) or absent, RP ID <= 3 bytes or absent, alphabet {a,b,c,.}, https/http, localhost flag; custom provider with rules {c, b.c}"),
+         H("c01_web_free_5_3", CL, features=("android-asset-validation",), bounds="host <= 5, RP ID <= 3"),
+         H("c01_web_free_6_4", CL, features=("android-asset-validation",), tier="thorough", bounds="host <= 6, RP ID <= 4"),
+         H("c01_web_twin", CL, features=("android-asset-validation",), twin=True, bounds="host <= 4"),
+         H("c01_localhost_gate", CL, features=("android-asset-validation",), bounds="host 'localhost', RP ID absent or 'localhost', https/http, flag"),
+         H("c01_is_valid_rp_id", CL, features=("android-asset-validation",), bounds="RP ID <= 5 bytes over {a,b,c,.}, flag"),
+     ],
+     functions=["RpIdVerifier::{assert_web_rp_id, assert_valid_rp_id, is_valid_rp_id, allows_insecure_localhost}"],
+     stubs=["url::Url::domain / url::Url::scheme -> harness-controlled symbolic strings (the Url value is a placeholder whose bytes are never read; "
+            "natively, in replays, a really parsed URL is used instead)",
+            "passkey_client::decode_host -> identity model for names without an 'xn--' label (str::split/memchr under symbolic lengths does not finish in CBMC)",
+            "EffectiveTLDProvider -> harness provider implementing the PSL algorithm over the rule set {c, b.c} (the property's 'custom suffix provider')"],
+     explanation="accept <=> host present, RP ID absent or equal to the host or a label-aligned suffix of it, effective id registrable under the provider, https "
+                 "(or the localhost exception) - asserted in both directions against an independent oracle for all short names over a 4-letter alphabet",
+     outside=["URL parsing itself (ports, userinfo, IP literals beyond 'domain() is None')", "punycode / IDN handling inside decode_host",
+              "the shipped suffix list as provider (C10)", "names longer than the stated bounds or outside the alphabet", "Client::register/authenticate passing the result on (whole ceremonies)",
+              "Android origins (UnverifiedAssetLink needs nom-parsed fingerprints; planned)"],
+     )
